@@ -16,6 +16,8 @@ CLAIMED.update({
  "C17": ("atomic-discipline scan over every access to the counter fields + who-may-write on rate.total + lockset dataflow on the per-key map with same-critical-section rule + Incr/defer-Decr pairing + must-pass event rules", _T, "DESIGN.md §3 C17"),
  "C18": ("data-dependence analysis of checkThreshold (single comparison on free, threshold independent of free) + exact-constant shape check of the three threshold cases + guard/must-pass rules on the watcher's pause/resume branches", _T, "DESIGN.md §3 C18"),
  "C16": ("acquire/release must-pass path rules (response bodies, spooled files, goroutine join, ticker stop) + guarded-insertion rule on the limiter table + reactor entry/token pairing", _T, "DESIGN.md §3 C16"),
+ "C04": ("tokenised SQL-constant state machine + must-pass recovery statement on every successful Init + transaction-object identity and commit-before-return in Get + loop-coverage of the stop-time reset + who-may-call on DeleteURL", _T, "DESIGN.md §3 C04"),
+ "C15": ("return-guard analysis of the sender retry loops (only shutdown or success) + select-arm dominance of batch replacement + fresh-slice rule + writer/reader field-mapping agreement + embedded-schema and constraint-branch checks", _T, "DESIGN.md §3 C15"),
 })
 _P = "check not built yet in this round; planned rules in DESIGN.md §3 — not claimed until the rule runs"
 NOT_APPLICABLE = {f"C{i:02d}": _P for i in range(1, 20)}
